@@ -453,9 +453,7 @@ pub fn distinfo_parse(text: &[u8]) -> DInfo {
         let f: Vec<&[u8]> = line.split(|&c| is_ws(c)).filter(|x| !x.is_empty()).collect();
         if f.len() < 4 { continue; }
         let (Ok(action), Ok(value)) = (std::str::from_utf8(f[0]), std::str::from_utf8(f[3])) else { continue };
-        if f[1].len() < 2 && !(f[1].len() >= 1 && f[1][0] == b'(' && f[1][f[1].len() - 1] == b')') { continue; }
-        if f[1][0] != b'(' || f[1][f[1].len() - 1] != b')' || f[1].len() < 2 { if !(f[1] == b"()" ) { if f[1][0] != b'(' || f[1][f[1].len()-1] != b')' { continue; } } }
-        if f[1].len() < 2 { continue; }
+        if !(f[1][0] == b'(' && f[1][f[1].len() - 1] == b')' && f[1].len() >= 2) { continue; }
         if f[2] != b"=" { continue; }
         let name = f[1][1..f[1].len() - 1].to_vec();
         let patch = is_patch_name(&name);
